@@ -10,7 +10,7 @@ def run(seed_dir):
     if os.path.exists(mp):
         try: meta = json.load(open(mp))
         except Exception as e: meta = {"property": "?"}
-    prop = meta.get("property") or os.path.basename(seed_dir).split("-")[0]
+    prop = meta.get("check_properties") or meta.get("property") or os.path.basename(seed_dir).split("-")[0]
     patch = open(os.path.join(seed_dir, "patch.diff")).read()
     files = re.findall(r"^\+\+\+ b/(\S+)", patch, re.M)
     with tempfile.TemporaryDirectory() as td:
